@@ -72,6 +72,12 @@ func newUninitializedScope(rootProvider *provider, parent *scope, ctx context.Co
 func newScope(rootProvider *provider, parent *scope, ctx context.Context, cancel context.CancelFunc) (*scope, error) {
 	s := newUninitializedScope(rootProvider, parent, ctx, cancel)
 	if err := s.runInitializers(); err != nil {
+		// Release what the failed creation left behind: dispose the instances
+		// created so far and cancel the derived context
+		if closeErr := s.Close(); closeErr != nil {
+			return nil, errors.Join(err, closeErr)
+		}
+
 		return nil, err
 	}
 
